@@ -39,6 +39,11 @@ class NArr:
     def view(self, *_a):
         return self
 
+    def reshape(self, *shape):
+        if shape in ((-1,), ((-1,),)):
+            return NArr(self.items, self.dtype, 1)
+        raise TypeError("reshape not modelled")
+
     def __iter__(self):
         return iter(list(self.items))
 
@@ -46,7 +51,7 @@ class NArr:
         return len(self.items)
 
 
-for _n in ("tolist", "item", "view", "__iter__", "__len__"):
+for _n in ("tolist", "item", "view", "reshape", "__iter__", "__len__"):
     getattr(NArr, _n)._pyvc_native = True
 
 
